@@ -391,3 +391,165 @@ Theorem alive_pod_keeps_ip_l provider nodes ops op x e p :
 Proof.
   intros Hwf Hop w. apply alive_pod_keeps_ip_step; [by apply winv_reachable|by apply keyuid_reachable|done].
 Qed.
+
+(** * the behaviour before the repair, on the history the real code ran
+    Deployment ns1/dp (policy immutable, 2 replicas): pods dp-aaa (uid uA) and dp-bbb (uC) are created, seen, filtered
+    and bound (10.100.0.2 and 10.100.0.3); dp-aaa runs and the informer sees it running - [live_pa] is that object, what a
+    periodic pass lists or an update event is queued with.  dp-bbb is deleted, its event handled: 10.100.0.3 is parked
+    under the deployment prefix.  The deployment is scaled to 1, dp-aaa is deleted, its event handled: 10.100.0.2 is
+    released (more reserved IPs than replicas).  A NEW pod dp-aaa (uid uB, [live_pb]) is created; Filter hands it the
+    reserved 10.100.0.3: keyed by the pod's key, stored for uB - the pod is alive, not bound, and the informer does not
+    show it yet.  Now the pod-IP sync runs with the earlier object [live_pa] ("a pod the informer does not show is synced
+    as given"): the old code takes the free 10.100.0.2 back under the shared key, stored for uA.  The resync item of
+    10.100.0.2 finds "pod (uA) not running" and releases EVERY IP of the key: 10.100.0.3 of the alive pod is gone. *)
+Definition live_dpod (name uid : string) : pod :=
+  {| pd_ns := L "ns1"; pd_name := L name; pd_uid := L uid; pd_kind := KDp; pd_app := L "dp"; pd_pool := [];
+     pd_policy := 1; pd_ranges := []; pd_phase := 0; pd_node := []; pd_ips := [] |}.
+Definition live_dpa : pkey := (L "ns1", L "dp-aaa").
+Definition live_dpb : pkey := (L "ns1", L "dp-bbb").
+
+Definition h_live1 : list pop := [
+  PIpam (OConfigure conf1 false []);
+  PEnv (EDpSet (L "ns1", L "dp") (Some 2));
+  PEnv (EPodPut (live_dpod "dp-aaa" "uA"));
+  PEnv (EPodPut (live_dpod "dp-bbb" "uC"));
+  PEnv (EInformer live_dpa);
+  PEnv (EInformer live_dpb);
+  PFilter live_dpa [L "node1"] (orc None None []) no_faults;
+  PBind (L "ns1") (L "dp-aaa") (L "uA") (L "node1") (orc None (Some ip2) []) no_faults;
+  PFilter live_dpb [L "node1"] (orc None None []) no_faults;
+  PBind (L "ns1") (L "dp-bbb") (L "uC") (L "node1") (orc None (Some ip3) []) no_faults;
+  PEnv (EPodPhase live_dpa 1);
+  PEnv (EInformer live_dpa) ].                               (* the informer shows [live_pa] *)
+Definition h_live2 : list pop := [
+  PEnv (EPodDelete live_dpb);
+  PEnv (EInformer live_dpb);
+  PEvent 0 (orc None None [ip3]) [] no_faults;               (* 10.100.0.3 parked under "dp_ns1_dp_" *)
+  PEnv (EDpSet (L "ns1", L "dp") (Some 1));
+  PEnv (EPodDelete live_dpa);
+  PEnv (EInformer live_dpa);
+  PEvent 0 (orc None None [ip2]) [] no_faults;               (* 10.100.0.2 released *)
+  PEnv (EPodPut (live_dpod "dp-aaa" "uB"));
+  PFilter live_dpa [L "node1"] (orc None (Some ip3) []) no_faults ].   (* 10.100.0.3 handed to dp-aaa (uB) *)
+Definition h_live : list pop := h_live1 ++ h_live2.
+
+Definition live_pa : pod :=
+  {| pd_ns := L "ns1"; pd_name := L "dp-aaa"; pd_uid := L "uA"; pd_kind := KDp; pd_app := L "dp"; pd_pool := [];
+     pd_policy := 1; pd_ranges := []; pd_phase := 1; pd_node := L "node1"; pd_ips := [ip2] |}.
+Definition live_pb : pod := live_dpod "dp-aaa" "uB".
+Definition o_live : oracle := orc None None [ip2; ip3].
+
+Lemma h_live_wf : wf_hist (world0 false nodes1) (h_live ++ [PSyncPod live_pa no_faults; PResync ip2 o_live [] no_faults]).
+Proof. apply wf_hist_b_sound. vm_compute. reflexivity. Qed.
+
+Lemma h_live_not_stuck :
+  existsb is_stuck (trace_fl true true true (world0 false nodes1) (h_live ++ [PSyncPod live_pa no_faults; PResync ip2 o_live [] no_faults])) = false.
+Proof. vm_compute. reflexivity. Qed.
+
+Lemma live_pa_shown : w_lister (prun (world0 false nodes1) h_live1) !! pk live_pa = Some live_pa.
+Proof. vm_compute. reflexivity. Qed.
+
+(** the old sync keeps [WInv] for an object the informer does not contradict (the argument of [winv_sync_ips_obj]): the
+    invariant of C04 alone does not exclude the loss *)
+Lemma winv_sync_ips_old p fl : ∀ ips idx w, WInv w → sync_obj_ok w p → WInv (sync_ips_old w p ips fl idx).
+Proof.
+  induction ips as [|x rest IH]; intros idx w HW Hl; [done|]. cbn [sync_ips_old].
+  destruct (by_ip (w_ipam w) x) as [e|]; [|by apply IH]. destruct (Keys.is_empty (e_key e)); [|by apply IH].
+  apply IH; [|done]. by apply winv_sync_alloc.
+Qed.
+
+Lemma winv_sync_pod_ip_old w p fl : WInv w → sync_obj_ok w p → WInv (sync_pod_ip_old w p fl).
+Proof. intros HW Hl. unfold sync_pod_ip_old. destruct (pd_phase p =? 1); [by apply winv_sync_ips_old|done]. Qed.
+
+Theorem alive_pod_keeps_ip_refuted_old_l : ∃ nodes ops1 ops pa ip o ocl x e p,
+  (* a well-formed history - continued with the (repaired) sync step and the resync item - in which no step is stuck *)
+  wf_hist (world0 false nodes) ((ops1 ++ ops) ++ [PSyncPod pa no_faults; PResync ip o ocl no_faults]) ∧
+  existsb is_stuck (trace_fl true true true (world0 false nodes)
+                      ((ops1 ++ ops) ++ [PSyncPod pa no_faults; PResync ip o ocl no_faults])) = false ∧
+  (* [pa] is the object the informer showed after [ops1]: Running, annotated with [ip] *)
+  w_lister (prun (world0 false nodes) ops1) !! pk pa = Some pa ∧ pd_phase pa = 1 ∧ pd_ips pa = [ip] ∧
+  let w := prun (world0 false nodes) (ops1 ++ ops) in
+  WInv w ∧ KeyUid w ∧ wf_op w (PSyncPod pa no_faults) ∧
+  (* the informer shows no pod of that name now: the object is synced as given, by the old code and by the repaired *)
+  w_lister w !! pk pa = None ∧
+  (* [p] is the pod of that name now: another incarnation, alive, not bound, holding [x] under its key for its UID *)
+  i_alloc (w_ipam w) !! x = Some e ∧ e_uid e ≠ [] ∧ e_uid e = pd_uid p ∧
+  w_pods w !! pk p = Some p ∧ finished p = false ∧ pod_key p = e_key e ∧ pd_ips p = [] ∧
+  pk p = pk pa ∧ pd_uid p ≠ pd_uid pa ∧ pod_key pa = pod_key p ∧ ip ≠ x ∧
+  (* old behaviour: the sync takes [ip] back under the shared key for the old UID - [WInv] still holds, [KeyUid] does
+     not - and the resync item of [ip] (not stuck) frees the alive pod's [x] *)
+  let wo := sync_pod_ip_old w pa no_faults in
+  (∃ e0, i_alloc (w_ipam wo) !! ip = Some e0 ∧ e_key e0 = pod_key p ∧ e_uid e0 = pd_uid pa) ∧
+  i_alloc (w_ipam wo) !! x = Some e ∧ w_pods wo !! pk p = Some p ∧ WInv wo ∧ ¬ KeyUid wo ∧
+  (resync_section wo ip o ocl no_faults).2 = SOk ∧
+  i_alloc (w_ipam (resync_section wo ip o ocl no_faults).1) !! x = None ∧
+  i_alloc (w_ipam (resync_section wo ip o ocl no_faults).1) !! ip = None ∧
+  (* repaired behaviour, same continuation: the sync is refused, the resync item finds nothing, the pod keeps [x] *)
+  sync_given true w pa no_faults = w ∧
+  (resync_section (sync_given true w pa no_faults) ip o ocl no_faults).2 = SOk ∧
+  i_alloc (w_ipam (resync_section (sync_given true w pa no_faults) ip o ocl no_faults).1) !! x = Some e ∧
+  i_alloc (w_ipam (prun (world0 false nodes) ((ops1 ++ ops) ++ [PSyncPod pa no_faults; PResync ip o ocl no_faults]))) !! x = Some e.
+Proof.
+  exists nodes1, h_live1, h_live2, live_pa, ip2, o_live, [], ip3. eexists. exists live_pb. fold h_live.
+  pose proof h_live_wf as Hwf. apply wf_hist_app in Hwf as [Hwf1 _].
+  pose proof (winv_reachable _ _ _ Hwf1) as HW. pose proof (keyuid_reachable _ _ _ Hwf1) as HK.
+  assert (wf_pod live_pa) as Wpa by (apply wf_pod_b_sound; vm_compute; reflexivity).
+  assert (w_lister (prun (world0 false nodes1) h_live) !! pk live_pa = None) as Hnone by (vm_compute; reflexivity).
+  split; [exact h_live_wf|]. split; [exact h_live_not_stuck|]. split; [exact live_pa_shown|].
+  split; [reflexivity|]. split; [reflexivity|]. cbv zeta.
+  split; [exact HW|]. split; [exact HK|]. split; [exact Wpa|]. split; [exact Hnone|].
+  split; [vm_compute; reflexivity|]. split; [vm_compute; discriminate|].
+  split; [vm_compute; reflexivity|]. split; [vm_compute; reflexivity|]. split; [reflexivity|].
+  split; [vm_compute; reflexivity|]. split; [reflexivity|]. split; [reflexivity|]. split; [vm_compute; discriminate|].
+  split; [vm_compute; reflexivity|]. split; [vm_compute; discriminate|].
+  split. { eexists. split; [vm_compute; reflexivity|]. split; vm_compute; reflexivity. }
+  split; [vm_compute; reflexivity|]. split; [vm_compute; reflexivity|].
+  split. { apply winv_sync_pod_ip_old; [done|]. split; [done|]. intros l Hl. by rewrite Hnone in Hl. }
+  split.
+  { intros HKo.
+    assert (∃ e2 e3, i_alloc (w_ipam (sync_pod_ip_old (prun (world0 false nodes1) h_live) live_pa no_faults)) !! ip2 = Some e2 ∧
+                     i_alloc (w_ipam (sync_pod_ip_old (prun (world0 false nodes1) h_live) live_pa no_faults)) !! ip3 = Some e3 ∧
+                     e_key e2 = e_key e3 ∧ e_uid e2 ≠ [] ∧ e_uid e3 ≠ [] ∧ e_uid e2 ≠ e_uid e3)
+      as (e2 & e3 & H2 & H3 & Hk & N2 & N3 & N23).
+    { eexists _, _. split; [vm_compute; reflexivity|]. split; [vm_compute; reflexivity|].
+      split; [vm_compute; reflexivity|]. split_and!; vm_compute; discriminate. }
+    destruct (HKo _ _ _ _ H2 H3 Hk) as [E|[E|E]]; [exact (N2 E)|exact (N3 E)|exact (N23 E)]. }
+  split; [vm_compute; reflexivity|]. split; [vm_compute; reflexivity|]. split; [vm_compute; reflexivity|].
+  split; [vm_compute; reflexivity|]. split; [vm_compute; reflexivity|]. split; vm_compute; reflexivity.
+Qed.
+
+(** * the hypotheses are satisfiable
+    The world after [h_live]: the new pod dp-aaa (uB) is alive and NOT bound ([pd_ips] is empty - [WInv] says nothing about
+    it), 10.100.0.3 is keyed by its key and stored for its UID; the resync item of that very IP is not skipped, reaches
+    the "pod running" test and leaves the entry as it is. *)
+Lemma alive_pod_keeps_ip_nonvacuous_l : ∃ nodes ops x o ocl fl e p,
+  wf_hist (world0 false nodes) (ops ++ [PResync x o ocl fl]) ∧ release_step (PResync x o ocl fl) ∧
+  let w := prun (world0 false nodes) ops in
+  WInv w ∧ KeyUid w ∧
+  i_alloc (w_ipam w) !! x = Some e ∧ e_uid e ≠ [] ∧ e_uid e = pd_uid p ∧
+  w_pods w !! pk p = Some p ∧ finished p = false ∧ pod_key p = e_key e ∧
+  pd_ips p = [] ∧ ¬ live_bound p ∧ w_lister w !! pk p = None ∧
+  resync_skip e (Keys.parse_key (e_key e)) = false ∧
+  i_alloc (w_ipam (pstep w (PResync x o ocl fl)).1) !! x = Some e.
+Proof.
+  exists nodes1, h_live, ip3, (orc None None [ip3]), [], no_faults. eexists. exists live_pb.
+  assert (wf_hist (world0 false nodes1) (h_live ++ [PResync ip3 (orc None None [ip3]) [] no_faults])) as Hwf
+    by (apply wf_hist_b_sound; vm_compute; reflexivity).
+  split; [exact Hwf|]. split; [exact I|]. cbv zeta.
+  apply wf_hist_app in Hwf as [Hwf1 _].
+  split; [by apply winv_reachable|]. split; [by apply keyuid_reachable|].
+  split; [vm_compute; reflexivity|]. split; [vm_compute; discriminate|]. split; [vm_compute; reflexivity|].
+  split; [vm_compute; reflexivity|]. split; [reflexivity|]. split; [vm_compute; reflexivity|].
+  split; [reflexivity|]. split; [intros [_ Hb]; exact (Hb eq_refl)|]. split; [vm_compute; reflexivity|].
+  split; vm_compute; reflexivity.
+Qed.
+
+Print Assumptions keyuid_step.
+Print Assumptions keyuid_reachable.
+Print Assumptions resync_keeps_alive.
+Print Assumptions event_keeps_alive.
+Print Assumptions event_step_keeps_alive.
+Print Assumptions alive_pod_keeps_ip_step.
+Print Assumptions alive_pod_keeps_ip_l.
+Print Assumptions alive_pod_keeps_ip_refuted_old_l.
+Print Assumptions alive_pod_keeps_ip_nonvacuous_l.
